@@ -188,6 +188,12 @@ def positions(e):
     out.append(("stmt-kill-nested", ['KILL "zz" + LEFT$("abc", (' + t + "))"],
                 {"k": "need", "e": bin_("+", lit("$", "zz"), bcall("LEFT$", lit("$", "abc"), par(e))), "kind": "s"}))
     out.append(("stmt-poke-nested", ["POKE VARPTR(A%), LEN(LTRIM$((" + t + ")))"], {"k": "need", "e": bcall("LEN", bcall("LTRIM$", par(e))), "kind": "n"}))
+    # operands far beyond the whole-number range under the whole-number operators: an Overflow, never a Type mismatch
+    huge = "B! = 10000000000000000000000.0"
+    out.append(("mod-huge-left", [huge, "PRINT (" + t + ") MOD 2"], {"k": "need", "e": bin_("mod", par(e), lit("I", 2)), "kind": "any"}))
+    out.append(("mod-huge-right", [huge, "PRINT 7 MOD (" + t + ")"], {"k": "need", "e": bin_("mod", lit("I", 7), par(e)), "kind": "any"}))
+    out.append(("and-huge", [huge, "PRINT (" + t + ") AND 1"], {"k": "need", "e": bin_("and", par(e), lit("I", 1)), "kind": "any"}))
+    out.append(("not-huge", [huge, "PRINT NOT (" + t + ")"], {"k": "need", "e": un("not", par(e)), "kind": "any"}))
     out.append(("nested-arg", ["PRINT FN%(LEN(UCASE$((" + t + "))))"],
                 {"k": "need", "e": ucall("FN%", ["n"], "n", bcall("LEN", bcall("UCASE$", par(e)))), "kind": "any"}))
     return out
